@@ -761,6 +761,136 @@ def rule_F8(ctx, rid='F8'):
 
 
 # ---------------------------------------------------------------------------
+# G1 no state shared between sampler instances or hidden in the process
+# ---------------------------------------------------------------------------
+
+MUTATING_METHODS = {'append', 'extend', 'insert', 'pop', 'remove', 'clear', 'update',
+                    'setdefault', 'popitem', 'sort', 'reverse', 'add', 'discard'}
+# writes of module-level state that are part of the design (confirmed by reading)
+G1_ALLOWED_GLOBALS = {
+    ('pool.initialize_worker', 'LIKELIHOOD'): 'per-process copy of the likelihood, set once by '
+                                              'the pool initializer of each worker',
+}
+
+
+def _mutable_default(d):
+    if isinstance(d, (ast.Dict, ast.List, ast.Set)):
+        return True
+    return isinstance(d, ast.Call) and isinstance(d.func, ast.Name) and \
+        d.func.id in ('dict', 'list', 'set', 'bytearray') and not d.args and not d.keywords
+
+
+def shared_state_faults(tree_or_func_nodes, module_tree=None):
+    """[(kind, ast node, text)] for: in-place mutation of a parameter that may still be its
+    mutable default object; `global` writes; class-level mutable attributes."""
+    from .cfg import CFG
+    out = []
+    for fn in tree_or_func_nodes:
+        a = fn.args
+        allp = a.posonlyargs + a.args
+        defaults = [None] * (len(allp) - len(a.defaults)) + list(a.defaults)
+        shared = {p.arg for p, d in zip(allp, defaults) if d is not None and _mutable_default(d)}
+        shared |= {p.arg for p, d in zip(a.kwonlyargs, a.kw_defaults)
+                   if d is not None and _mutable_default(d)}
+        if shared:
+            cfg = CFG(fn)
+            for n in cfg.nodes:
+                if n.kind != 'stmt' or n.ast is None:
+                    continue
+                hits = []
+                st = n.ast
+                tgts = []
+                if isinstance(st, ast.Assign):
+                    tgts = st.targets
+                elif isinstance(st, ast.AugAssign):
+                    tgts = [st.target]
+                elif isinstance(st, ast.Delete):
+                    tgts = st.targets
+                for t in tgts:
+                    b = t
+                    sub = False
+                    while isinstance(b, ast.Subscript):
+                        b, sub = b.value, True
+                    if sub and isinstance(b, ast.Name) and b.id in shared:
+                        hits.append(b.id)
+                for c in ast.walk(st):
+                    if isinstance(c, ast.Call) and isinstance(c.func, ast.Attribute) and \
+                            c.func.attr in MUTATING_METHODS and \
+                            isinstance(c.func.value, ast.Name) and c.func.value.id in shared:
+                        hits.append(c.func.value.id)
+                for name in hits:
+                    if cfg.entry.id in cfg.defs_at(n.id, name):
+                        out.append(('default', st, 'parameter %r has a mutable default and is '
+                                    'modified in place by `%s` while it can still be that '
+                                    'default object: the change leaks into every later call'
+                                    % (name, unparse(st)[:50])))
+        for g in ast.walk(fn):
+            if isinstance(g, ast.Global):
+                for name in g.names:
+                    out.append(('global', g, name))
+    if module_tree is not None:
+        for c in ast.walk(module_tree):
+            if isinstance(c, ast.ClassDef):
+                for st in c.body:
+                    if isinstance(st, ast.Assign) and (
+                            _mutable_default(st.value) or (
+                                isinstance(st.value, ast.Call) and
+                                (dotted(st.value.func) or '').startswith(('np.zeros', 'np.array',
+                                                                          'np.empty')))):
+                        out.append(('class', st, 'class %s has the class-level mutable attribute '
+                                    '`%s`: it is shared by all instances' % (
+                                        c.name, unparse(st)[:50])))
+    return out
+
+
+def rule_G1(ctx, rid='G1'):
+    ctx.rule(rid, 'instance isolation: no function modifies in place a parameter that may still '
+             'be its mutable default object; module-level state is written only where the '
+             'frozen table allows; no class-level mutable attributes -- results cannot depend on '
+             'what other samplers did earlier in the same process')
+    prog = ctx.program
+    n_funcs = 0
+    for f in sorted(prog.functions.values(), key=lambda x: x.qualname):
+        n_funcs += 1
+        faults = shared_state_faults([f.node])
+        bad = []
+        for kind, node, text in faults:
+            if kind == 'global':
+                if (f.qualname, text) in G1_ALLOWED_GLOBALS:
+                    continue
+                bad.append((node, 'writes the module-level name %r: state that outlives and is '
+                            'shared between samplers' % text))
+            else:
+                bad.append((node, text))
+        if faults or any(_mutable_default(d) for d in f.node.args.defaults +
+                         [k for k in f.node.args.kw_defaults if k is not None]):
+            ctx.ob(rid, '%s:no-shared-state' % f.qualname, not bad,
+                   f.where(bad[0][0]) if bad else f.where(),
+                   'parameters with mutable defaults are not modified in place; no unlisted '
+                   'global write' if not bad else bad[0][1])
+    for m in prog.modules.values():
+        faults = [x for x in shared_state_faults([], m.tree) if x[0] == 'class']
+        ctx.ob(rid, '%s:no-class-level-mutable' % m.modname, not faults,
+               '%s:%d' % (m.relpath, faults[0][1].lineno) if faults else m.relpath + ':0',
+               'no class-level mutable attribute' if not faults else faults[0][2])
+    # fixtures
+    import os
+    def _fx(name):
+        with open(os.path.join(VERIF, 'fixtures', name)) as fh:
+            tree = ast.parse(fh.read())
+        fns = [n for n in ast.walk(tree) if isinstance(n, ast.FunctionDef)]
+        return shared_state_faults(fns, tree)
+    nb, ng = _fx('G1_bad.py'), _fx('G1_good.py')
+    kinds = {k for k, _, _ in nb}
+    if kinds != {'default', 'global', 'class'} or ng:
+        raise AnalysisError('G1 fixture self-check failed (bad %s, good %d)'
+                            % (sorted(kinds), len(ng)))
+    ctx.ob(rid, 'fixture:G1', True, 'fixtures/G1_bad.py', 'rule fires on the bad fixture (%s) '
+           'and is silent on the good one' % ', '.join(sorted(kinds)))
+    return n_funcs
+
+
+# ---------------------------------------------------------------------------
 # F5 ordered map
 # ---------------------------------------------------------------------------
 
